@@ -20,6 +20,7 @@ def plan(tier):
         Q(P, 9, ['-***'], wit=(W_OK, W_ERR)),                     # options in a second group
         Q(P, 4, ['****']), Q(P, 12, ['****']),
         Q(P, 2, ['--no-a**'], wit=(W_OK, W_ERR)),
+        Q(P, 13, ['--a', '***'], wit=(W_OK, W_ERR)),      # long names that are prefixes of one another (toggle a, option ab, toggle abc)
         Q(P, 1, ['--o=v', '***'], extra=['-DWIT_POS'], wit=(W_OK, W_ERR, 'a positional is reported')),   # the token after a complete --name=value is nobody's value                 # the negated spelling followed by anything: =value, more name bytes
     ]
     if th:
